@@ -87,6 +87,11 @@ struct Srv {
     idle_close: std::collections::HashMap<usize, u64>,
     reply_delay_us: u64,
     body_read_delay_ms: u64,
+    /// the first DATA phase of the run is not read for this long (the content write of a large message fails meanwhile)
+    body_delay_first_ms: u64,
+    data_phases: AtomicUsize,
+    /// a server that takes one message per session: after a transaction every command but QUIT gets 421 and the connection is closed
+    one_per_session: bool,
     stop: AtomicBool,
     open: AtomicUsize,
 }
@@ -222,6 +227,9 @@ fn serve(mut sock: TcpStream, k: usize, srv: Arc<Srv>) {
                 else if up.starts_with("RCPT TO:") { "RCPT" } else if up == "DATA" { "DATA" } else if up == "NOOP" { "NOOP" }
                 else if up == "QUIT" { "QUIT" } else if up == "RSET" { "RSET" } else { "OTHER" };
             ev("CMD", json!([cmd, line]));
+            if srv.one_per_session && transactions >= 1 && cmd != "QUIT" {
+                ev("FAULT", json!("e4")); reply(&mut sock, &srv, k, "421 one message per session\r\n"); break 'conn;
+            }
             if let Some(f) = srv.fault(k, cmd) {
                 match apply(&f, &mut sock) {
                     Some(true) => break 'conn,
@@ -246,6 +254,9 @@ fn serve(mut sock: TcpStream, k: usize, srv: Arc<Srv>) {
                     if from.is_empty() || rcpts.is_empty() { reply(&mut sock, &srv, k, "503 need RCPT\r\n"); continue; }
                     reply(&mut sock, &srv, k, "354 go\r\n");
                     if srv.body_read_delay_ms > 0 { std::thread::sleep(Duration::from_millis(srv.body_read_delay_ms)); }
+                    if srv.data_phases.fetch_add(1, Ordering::SeqCst) == 0 && srv.body_delay_first_ms > 0 {
+                        ev("FAULT", json!("stall")); std::thread::sleep(Duration::from_millis(srv.body_delay_first_ms));
+                    }
                     let Some(body) = read_data(&mut sock, &mut buf, &srv) else { ev("EOF", json!("in data")); break 'conn; };
                     let id = String::from_utf8_lossy(&body).lines().find_map(|l| l.strip_prefix("X-Id: ").map(|s| s.to_string())).unwrap_or_default();
                     let f = srv.fault(k, "BODY");
@@ -487,6 +498,8 @@ pub fn run_scenario(sc: &Value) -> Value {
         faults, counts: Mutex::new(Default::default()), idle_close,
         reply_delay_us: sc["reply_delay_us"].as_u64().unwrap_or(0),
         body_read_delay_ms: sc["body_read_delay_ms"].as_u64().unwrap_or(0),
+        body_delay_first_ms: sc["body_delay_first_ms"].as_u64().unwrap_or(0), data_phases: AtomicUsize::new(0),
+        one_per_session: sc["one_per_session"].as_bool().unwrap_or(false),
         stop: AtomicBool::new(false), open: AtomicUsize::new(0),
     });
     let listener = TcpListener::bind("127.0.0.1:0").unwrap();
